@@ -316,6 +316,13 @@ registry.register("C02", {
         "idle timer: get_idle_timer_duration / on_processed_packet / on_ack_eliciting_packet_sent / the expiry branch of on_timeout "
         "are private to connection_impl.rs; they are tied to the model by the translator (factor 3, shape of the four statements, "
         "30 s default) and by driving the real MaxIdleTimeout::load_peer, Timer and Timestamp arithmetic with a transcription",
+        "composition (C02_eventual_delivery): an ABSTRACT composed model (coq/model/Liveness.v: one finished stream, one frame per "
+        "packet, a transmission = a round trip decided by two network bits, PTO declares everything in flight lost, the connection "
+        "stays open) with oracles under visible hypotheses: fair scheduler (every transmit opportunity / timer expiry / application "
+        "read recurs), finite fault prefix then faithful network, windows >= 1 and thresholds <= windows, and interest_reported "
+        "(the sender's flow controller does not report blocked while stream and connection credit are available). The last premise "
+        "is refuted for the real StreamFlowController (C02_interest_reported_refuted, KNOWN_FINDINGS class "
+        "both_windows_blocked_state_masks_stream_credit); congestion/amplification limits and multiple streams are not in the model",
         "recovery timer: the decision function update_pto_timer / check_consistency is modelled from the source; its correspondence "
         "with the running recovery manager is the C09 manager driver (not duplicated here); hypothesis `bookkeeping` (ack-eliciting "
         "packet in flight -> time_of_last_ack_eliciting_packet is set) is visible in the theorem",
@@ -323,6 +330,6 @@ registry.register("C02", {
     "trusted_base": ["no axioms: Print Assumptions reports 'Closed under the global context' for every C02 theorem"],
     "explanation": "Coq theorems C02_* over models of sync/{mod,incremental_value_sync,once_sync,periodic_sync}.rs (never stuck, "
                    "never forgotten, monotone), of the idle timer arithmetic (deadline = last reset + max(idle, 3 PTO), blackhole closes) "
-                   "and of update_pto_timer/check_consistency (timer armed when required); sync models tied to the real state machines "
+                   "and of update_pto_timer/check_consistency (timer armed when required), composition theorem C02_eventual_delivery on an abstract composed model (lexicographic measure) and C02_blackhole_closes_both; sync models tied to the real state machines "
                    "by differential execution through the transport hook, the rest by generated constants; partial: no executor model",
 })
